@@ -2,6 +2,7 @@
 mod diskfmt;
 mod engine;
 mod gen;
+mod lin;
 mod props;
 mod rec;
 mod shim;
